@@ -179,3 +179,89 @@ func (c *Controller) on(point string, arg any) {
 		time.Sleep(time.Duration(doSleep) * time.Microsecond)
 	}
 }
+
+// RotGate holds the background rotation goroutine of ONE WAL at "rotate.received"
+// (rotation queued, write lock not yet taken) until the next writer call starts
+// waiting for it ("awaitRotation.wait"), or until Release is called. It makes the
+// race between a caller's next call and the background rotation deterministic:
+// the caller always gets the lock first.
+type RotGate struct {
+	w       any
+	mu      sync.Mutex
+	ch      chan struct{}
+	running bool // a rotation passed the gate and has not finished yet
+	pass    bool // a writer is already waiting for a rotation that has not reached the gate: let it through
+	remove  func()
+	Parked  atomic.Int64 // how many rotations were held
+	Waited  atomic.Int64 // how many times a writer call waited for the held rotation
+}
+
+func NewRotGate(w any) *RotGate {
+	g := &RotGate{w: w}
+	g.remove = hooks.OnWAL(func(point string, arg any) {
+		if arg != g.w {
+			return
+		}
+		switch point {
+		case "rotate.received":
+			g.mu.Lock()
+			if g.pass {
+				g.pass = false
+				g.running = true
+				g.mu.Unlock()
+				return
+			}
+			ch := make(chan struct{})
+			g.ch = ch
+			g.mu.Unlock()
+			g.Parked.Add(1)
+			<-ch
+		case "rotate.done", "rotate.exit":
+			g.mu.Lock()
+			g.running = false
+			g.mu.Unlock()
+		case "awaitRotation.wait":
+			g.Waited.Add(1)
+			g.mu.Lock()
+			if g.ch != nil {
+				close(g.ch)
+				g.ch = nil
+				g.running = true
+			} else {
+				// the rotation this writer waits for has not reached the gate (or is running):
+				// never hold the next one that arrives, or the writer would wait forever. At
+				// worst this lets one later rotation through un-held.
+				g.pass = true
+			}
+			g.mu.Unlock()
+		}
+	})
+	return g
+}
+
+// Release lets a held rotation proceed (no-op if none is held).
+func (g *RotGate) Release() {
+	g.mu.Lock()
+	if g.ch != nil {
+		close(g.ch)
+		g.ch = nil
+		g.running = true
+	}
+	g.mu.Unlock()
+}
+
+// Holding reports whether a rotation is currently held.
+func (g *RotGate) Holding() bool {
+	g.mu.Lock()
+	defer g.mu.Unlock()
+	return g.ch != nil
+}
+
+// Close removes the gate.
+func (g *RotGate) Close() {
+	g.remove()
+	g.mu.Lock()
+	g.pass = true
+	g.mu.Unlock()
+	g.Release()
+}
